@@ -45,6 +45,13 @@ impl FlexiLogger {
     }
 }
 
+// The list of writer names within a target like "{Writer1,Writer2}";
+// must not panic for odd targets like "{" or targets with multi-byte characters
+fn writer_list(target: &str) -> &str {
+    let list = target.strip_prefix('{').unwrap_or(target);
+    list.strip_suffix('}').unwrap_or(list)
+}
+
 impl log::Log for FlexiLogger {
     //  If other writers are configured and the metadata target addresses them correctly,
     //      - we should determine if the metadata-level is digested by any of the writers
@@ -59,7 +66,7 @@ impl log::Log for FlexiLogger {
 
         if !self.other_writers.is_empty() && target.starts_with('{') {
             // at least one other writer is configured _and_ addressed
-            let targets: Vec<&str> = target[1..(target.len() - 1)].split(',').collect();
+            let targets: Vec<&str> = writer_list(target).split(',').collect();
             let mut use_default = false;
             for t in targets {
                 if t == "_Default" {
@@ -101,7 +108,7 @@ impl log::Log for FlexiLogger {
         let special_target_is_used = target.starts_with('{');
         if special_target_is_used {
             let mut use_default = false;
-            let targets: Vec<&str> = target[1..(target.len() - 1)].split(',').collect();
+            let targets: Vec<&str> = writer_list(target).split(',').collect();
             for (idx, t) in targets.iter().copied().enumerate() {
                 if targets[..idx].contains(&t) {
                     // a name that is repeated in the list is served only once
